@@ -203,6 +203,11 @@ impl HandshakeService {
 
 #[cfg(feature = "verif")]
 impl HandshakeService {
+    /// Verification hook: substreams held plus completed handshakes not yet handed out.
+    pub(crate) fn verif_len(&self) -> usize {
+        self.substreams.len() + self.ready.len()
+    }
+
     /// Verification hook: is a substream of `peer` with `direction` being negotiated?
     pub(crate) fn verif_contains(&self, peer: &PeerId, direction: Direction) -> bool {
         self.substreams.contains_key(&(*peer, direction))
